@@ -11,6 +11,8 @@
    (tsvw STRIP NAME ATTRS DESC) tsv row, followed by tsv_read_row of it
    (tsvr HEDID NAME ATTRSTR DESC)
    (tsvfiles (0|1 x10))         section files a TSV save writes
+   (lines S)                    SchemaLoaderWiki._open_file: the lines of a text
+   (xmln S)                     name part of xml2schema._get_element_tag_value
    (xmld S)                     description part of xml2schema._parse_node
    (tsve STRIP INCL NAME ATTRS DESC)  Schema2DF._write_entry row
    (trav LIB WS MERGED TAGS UNITS SECTIONS)
@@ -58,6 +60,9 @@ let sec_sx l = L (List.map (fun (e, at) -> L [nat_sx e.e_id; nats_sx at]) l)
 (* VERIF_C05_FIXED (default 1): the repaired readers/writers (findings C05-F1, F3, F4) *)
 let fixed : bool = (match Sys.getenv_opt "VERIF_C05_FIXED" with Some "0" -> false | _ -> true)
 
+(* VERIF_C05_FIXED_F5 (default 0): the repair of finding C05-F5 (names stripped by the XML/TSV readers) *)
+let fixed5 : bool = (match Sys.getenv_opt "VERIF_C05_FIXED_F5" with Some "1" -> true | _ -> false)
+
 let () = main_loop (fun x ->
   ignore (force_types O N0);
   match x with
@@ -90,7 +95,7 @@ let () = main_loop (fun x ->
        bool_sx (attr_ok (sx_attrs a)); bool_sx (tsv_desc_ok (sx_desc d))]
   | L [A "tsvw"; st; nm; a; d] ->
     let r = tsv_write_tag_row (sx_bool st) (sx_str nm) (sx_attrs a) (sx_desc d) in
-    let back = (match tsv_read_row r with
+    let back = (match tsv_read_row fixed5 r with
       | Exn e -> L [A "exn"; exn_sx e]
       | Ok ((n, at), de) -> L [A "ok"; str_sx n; attrs_sx at; desc_sx de]) in
     L [str_sx r.r_hed_id; str_sx r.r_name; str_sx r.r_attributes; desc_sx r.r_description; back]
@@ -100,12 +105,14 @@ let () = main_loop (fun x ->
     let tbl = List.combine df_suffixes fl in
     let rows_of k = (match List.find_opt (fun (s, _) -> s = k) tbl with Some (_, true) -> [[O]] | _ -> []) in
     L (List.map str_sx (files_written false (output_tables rows_of)))
+  | L [A "lines"; t] -> L (List.map str_sx (open_file_lines (sx_str t)))
+  | L [A "xmln"; t] -> str_sx (xml_read_name fixed5 (sx_str t))
   | L [A "xmld"; t] -> desc_sx (xml_read_desc fixed (sx_str t))
   | L [A "tsve"; st; incl; nm; a; d] ->
     let r = tsv_write_entry_row fixed (sx_bool st) (sx_bool incl) (sx_str nm) (sx_attrs a) (sx_desc d) in
     L [str_sx r.r_hed_id; str_sx r.r_name; str_sx r.r_attributes; desc_sx r.r_description]
   | L [A "tsvr"; h; nm; at; d] ->
-    (match tsv_read_row { r_hed_id = sx_str h; r_name = sx_str nm; r_attributes = sx_str at; r_description = sx_desc d } with
+    (match tsv_read_row fixed5 { r_hed_id = sx_str h; r_name = sx_str nm; r_attributes = sx_str at; r_description = sx_desc d } with
      | Exn e -> L [A "exn"; exn_sx e]
      | Ok ((n, a), de) -> L [A "ok"; str_sx n; attrs_sx a; desc_sx de])
   | L [A "trav"; lib; ws; m; tags; units; secs] ->
